@@ -114,10 +114,11 @@ func fnName(f *ssa.Function) string {
 // ------------------------------------------------------------------- callees
 
 // calleeName returns a canonical name for the callee of a call:
-//   static function:   "pkg/path.Func" or "(*pkg/path.T).Method" (module prefix stripped)
-//   interface invoke:  "iface:pkg/path.I.Method"
-//   builtin:           "builtin:len"
-//   dynamic:           "dyn:" + rendered value
+//
+//	static function:   "pkg/path.Func" or "(*pkg/path.T).Method" (module prefix stripped)
+//	interface invoke:  "iface:pkg/path.I.Method"
+//	builtin:           "builtin:len"
+//	dynamic:           "dyn:" + rendered value
 func calleeName(cc *ssa.CallCommon) string {
 	if cc.IsInvoke() {
 		t := cc.Value.Type()
